@@ -70,6 +70,48 @@ def walk_idents(b, count):
     return out
 
 
+def check_alias_classes(rep, rng, n):
+    """types the codec tables do not list by type id - the public alias classes (T61String = TeletexString, ISO646String =
+    VisibleString) and user subclasses that give themselves a type id: the codecs find them through the base tag, under any
+    tag stack; their encodings are those of the parent class under the same stack, and they round-trip"""
+    from pyasn1.type import char, univ, tag as ptag_
+    from pyasn1.codec.ber import encoder as benc_, decoder as bdec_
+    from pyasn1.codec.der import encoder as denc_, decoder as ddec_
+
+    class OwnIdInteger(univ.Integer):
+        typeId = univ.Integer.getTypeId()
+
+    class OwnIdOctets(univ.OctetString):
+        typeId = univ.OctetString.getTypeId()
+    pairs = [(char.T61String, char.TeletexString, 'abc'), (char.ISO646String, char.VisibleString, 'xyz'),
+             (OwnIdInteger, univ.Integer, 300), (OwnIdOctets, univ.OctetString, b'\x01\x02')]
+    CLS_ = {'a': ptag_.tagClassApplication, 'c': ptag_.tagClassContext, 'p': ptag_.tagClassPrivate}
+    for _ in range(n):
+        stack = tag_stack(rng, rng.choice([0, 1, 1, 2, 3]))
+        for alias, parent, payload in pairs:
+            a_t, p_t = alias(), parent()
+            for mode, cls, num in stack:
+                tg = ptag_.Tag(CLS_[cls], ptag_.tagFormatSimple, num)
+                kw = {'explicitTag': tg} if mode == 'e' else {'implicitTag': tg}
+                a_t, p_t = a_t.subtype(**kw), p_t.subtype(**kw)
+            rep.evaluations += 1
+            rep.count('alias-classes')
+            case = {'kind': 'alias-class', 'class': alias.__name__, 'stack': [list(x) for x in stack]}
+            for ename, em, dm in (('ber', benc_, bdec_), ('der', denc_, ddec_)):
+                try:
+                    want = em.encode(p_t.clone(payload))
+                    got = em.encode(a_t.clone(payload))
+                    got2 = em.encode(payload, asn1Spec=a_t)
+                    back, rest = dm.decode(got, asn1Spec=a_t)
+                    ok = got == want and got2 == want and rest == b'' and back == a_t.clone(payload) and type(back) is type(a_t)
+                    what = 'alias %s, value+schema %s, parent %s' % (got.hex(), got2.hex(), want.hex())
+                except Exception as ex:  # noqa
+                    ok, what = False, repr(ex)
+                if not ok:
+                    rep.fail('alias-class-' + ename, '%s under %s: %s' % (alias.__name__, stack, what[:200]), dict(case, codec=ename))
+                    break
+
+
 def run(rep, tier, seed):
     common.prove(rep)
     rng = common.rng_for(seed, 'C13')
@@ -99,6 +141,8 @@ def run(rep, tier, seed):
                     if back != want:
                         rep.disagree('TAGDEC', impl.hex(), back, want)
 
+    rep.case('alias classes', nontrivial=True)
+    check_alias_classes(rep, common.rng_for(seed, 'C13', 'alias'), 60 if tier == 'quick' else 2000)
     for n in range(n_cases):
         base = rng.choice(BASES)
         depth = rng.choice([0, 1, 1, 2, 2, 3, 4])
